@@ -16,6 +16,28 @@ inline u64 payload_hash(const std::vector<u8>& d)
     return sum;
 }
 
+// Bytes of a block that no field covers (gaps left by explicit offsets, reserved space of an explicit
+// blockLength, padding inside composites) are not written by any producer: in a tree that a real
+// encoder is going to reproduce over a zeroed slot they are zero.
+inline void zero_uncovered(const SchemaShape& sh, Node& n)
+{
+    const LevelShape& lv = sh.levels[(std::size_t)n.level];
+    std::vector<bool> cov(n.block.size(), false);
+    std::function<void(const MemberShape&, u64)> mark = [&](const MemberShape& m, u64 abs) {
+        if(m.kind == K_COMPOSITE)
+        {
+            for(auto& cm : sh.comps[(std::size_t)m.comp].members) mark(cm, abs + cm.offset);
+            return;
+        }
+        for(u64 i = abs; i < abs + m.size && i < cov.size(); i++) cov[(std::size_t)i] = true;
+    };
+    for(auto& f : lv.fields) mark(f, f.offset);
+    for(std::size_t i = 0; i < cov.size(); i++)
+        if(!cov[i]) n.block[i] = 0;
+    for(auto& g : n.groups)
+        for(auto& e : g.entries) zero_uncovered(sh, e);
+}
+
 struct C03
 {
     const Driver& drv;
@@ -182,7 +204,77 @@ inline Result exec_c03(const Plan& plan)
     sim::Hasher fp;
     const Driver& drv = *fs.drv;
     const SchemaShape& sh = *drv.shape;
-    Frame f = make_frame(fs);
+    Frame f;
+    if(plan.get("producer") == "real-v2")
+    {
+        // Both ends run real code: the image is produced by the *real* encoder sbeppc generates for a later
+        // version of the schema (the same messages with fields appended to every block), driven by a value
+        // tree of that version; the consumer is compiled from the original schema.
+        const Driver* d2 = nullptr;
+        for(auto& d : drivers())
+            if(d.producer_only && d.checked == drv.checked && std::string(d.shape->name) == std::string(sh.name) + "v2") d2 = &d;
+        if(!d2)
+        {
+            sim::stats().count("c03.real_v2.no_v2_driver_for_schema");
+            res.fingerprint = 3;
+            return res;
+        }
+        const SchemaShape& sh2 = *d2->shape;
+        if(sh2.levels.size() != sh.levels.size() || sh2.messages.size() != sh.messages.size())
+        {
+            res.signature = "HARNESS:v2-shape-mismatch";
+            return res;
+        }
+        TreeParams tp = fs.tp;
+        tp.extend = false;
+        sim::Rng r(fs.tree_seed * 0x9E3779B97F4A7C15ULL + 12345);
+        Frame f2 = gen_frame(sh2, fs.msg, r, tp);
+        zero_uncovered(sh2, f2.root);
+        const std::size_t size = f2.bytes.size() + 32;
+        u8* q = sim::arena_place(size);
+        std::memset(q, 0, size);
+        Req rq;
+        rq.msg = fs.msg;
+        rq.p = q;
+        rq.n = size;
+        rq.target = T_MESSAGE;
+        rq.sub = M_ENCODE;
+        rq.tree = &f2.root;
+        rq.arg = (u64)(plan.geti("producer_cursor") ? 1 : 0);
+        Res rs2;
+        Outcome o2 = call_driver(*d2, rq, rs2);
+        if(o2.kind != Out::DONE || !rs2.valid)
+        {
+            // the producing peer itself failed: not this property's subject
+            sim::stats().count(std::string("c03.real_v2.producer_") + sim::out_name(o2.kind));
+            res.fingerprint = 4;
+            return res;
+        }
+        // the same tree as the original schema sees it: identical structure, blocks as long as version 2 made them
+        f.msg = fs.msg;
+        f.root = f2.root;
+        encode(sh, f);
+        std::vector<u8> image(q, q + rs2.size);
+        bool same = image.size() == f.bytes.size();
+        const HField& vf = sh.msg_header.version;
+        for(std::size_t i = 0; same && i < image.size(); i++)
+        {
+            if(vf.off >= 0 && i >= (std::size_t)vf.off && i < (std::size_t)(vf.off + vf.width)) continue; // the version number differs by design
+            if(image[i] != f.bytes[i]) same = false;
+        }
+        if(!same)
+        {
+            // producer and reference encoder disagree about the image: which one is right is C01's question
+            // (not claimed); the consumer is not examined on an image the model cannot describe
+            sim::stats().count("c03.real_v2.image_differs_from_reference_encoder");
+            res.fingerprint = 5;
+            return res;
+        }
+        f.bytes = image;
+        sim::stats().count("c03.real_v2.frames");
+    }
+    else
+        f = make_frame(fs);
     const u64 N = f.bytes.size();
     u8* p = sim::arena_place((std::size_t)N);
     std::memcpy(p, f.bytes.data(), (std::size_t)N);
@@ -364,7 +456,7 @@ inline Plan gen_c03(u64 seed, const std::string& tier)
     p.set("property", "C03");
     p.set("engine", "wire");
     if(sim::options().count("known")) p.set("known", sim::options()["known"]);
-    const auto& ds = drivers();
+    const auto& ds = consumer_drivers();
     const Driver& d = ds[wl.below(ds.size())];
     const SchemaShape& sh = *d.shape;
     p.set("build", d.checked ? "checked" : "unchecked");
@@ -374,6 +466,16 @@ inline Plan gen_c03(u64 seed, const std::string& tier)
     p.seti("extend", 1);
     p.seti("maxcount", (long long)wl.range(1, 4));
     p.set("mode", "seeded (schema, value tree, per-level block extension)");
+    {
+        // a fifth of the plans: the image comes from the real encoder of a later schema version
+        sim::Rng pl = root.fork("producer");
+        if(pl.chance(1, 5))
+        {
+            p.set("producer", "real-v2");
+            p.seti("producer_cursor", (long long)pl.below(2));
+            p.set("mode", "image produced by the real encoder generated from version 2 of the schema (fields appended to every block)");
+        }
+    }
     return p;
 }
 } // namespace wire
